@@ -496,11 +496,8 @@ class C11(Property):
         on ANY list of [start, stop] pairs (sorted or not) both run the same loop; on sorted tables the
         abstraction must agree as well"""
         import random
-        import boltons.setutils as su
-        bl = getattr(su, 'bisect_left', None)
-        if bl is None:
-            import bisect
-            bl = bisect.bisect_left
+        import bisect
+        bl = bisect.bisect_left     # the stdlib function itself (what the code imports under that name is its business)
         rng = random.Random(11)
         lines, want = [], []
         for i in range(400):
